@@ -67,6 +67,7 @@ abbrev AVal := Option (Shape × List Int)
 
 inductive Out where
   | ok | noobj | err | crash
+  | alias   -- the protocol does not issue a backward kernel whose operands are one object
   | vals (sh : Shape) (v : List Int)
   | shape (sh : Shape)
   | bool (b : Bool)
@@ -166,6 +167,132 @@ def fill (n : Nat) (k : Int) (D : List Int) : List Int := List.replicate n k ++ 
 def overwrite (n : Nat) (vals : List Int) (D : List Int) : List Int := vals.take n ++ D.drop n
 def scale (n : Nat) (k : Int) (D : List Int) : List Int := (D.take n).map (· * k) ++ D.drop n
 
+/-! ### backward kernels that accumulate into their last argument -/
+
+/-- `dest[p.1] = f(dest[p.1], src[p.2])` for the listed index pairs, in order; source
+and destination are different buffers -/
+def scatter (f : Int → Int → Int) (idx : List (Nat × Nat)) (D S : List Int) : List Int :=
+  idx.foldl (kstep f (some S)) D
+
+def batchSkip (s : Shape) : Nat := if s.hasBatch then s.volume else 0
+
+/-- index pairs of `slice_bw_impl` (naive/ops/slice.cc) -/
+def sliceIdx (sy sx : Shape) (dim off : Nat) : List (Nat × Nat) :=
+  let base := sx.lowerVolume dim
+  let span := base * sy.get dim
+  let skip := base * sx.get dim
+  let rep := sx.volume / skip
+  (List.range (max sx.batch sy.batch)).flatMap fun b =>
+    (List.range rep).flatMap fun i =>
+      (List.range span).map fun j => (b * batchSkip sx + base * off + i * skip + j, b * batchSkip sy + i * span + j)
+
+/-- index pairs of `pick_bw_impl` (naive/ops/pick.cc) -/
+def pickIdx (sy sx : Shape) (dim : Nat) (ids : List Nat) : List (Nat × Nat) :=
+  let skipI := if ids.length > 1 then 1 else 0
+  let base := sy.lowerVolume dim
+  let skip := base * sx.get dim
+  let rep := sy.volume / base
+  (List.range sy.batch).flatMap fun b =>
+    (List.range rep).flatMap fun i =>
+      (List.range base).map fun j =>
+        (b * batchSkip sx + base * ids.getD (b * skipI) 0 + i * skip + j, b * (rep * base) + i * base + j)
+
+/-- index pairs of `flip_bw_impl` (naive/ops/flip.cc) -/
+def flipIdx (s : Shape) (dim : Nat) : List (Nat × Nat) :=
+  let n := s.get dim
+  let skip := s.lowerVolume dim
+  let r := s.size / n
+  (List.range n).flatMap fun j =>
+    (List.range r).map fun i =>
+      let offset := i * n - i % skip * (n - 1)
+      (offset + j * skip, offset + (n - j - 1) * skip)
+
+/-- contents of `transpose_fw(gy)` (naive/ops/transpose.cc), `sy` the shape of `gy` -/
+def transposeData (sy : Shape) (S : List Int) : List Int :=
+  let d1 := sy.get 0
+  let d2 := sy.get 1
+  let ms := d1 * d2
+  (List.range (sy.batch * ms)).map fun p =>
+    let k := p / ms
+    let q := p % ms
+    S.getD (k * ms + (q % d2) * d1 + q / d2) 0
+
+/-- `MDATA(dst)` and then a kernel that accumulates a function of `src`'s contents
+into `dst`'s buffer; `dst` and `src` are different objects, so the pointer the
+kernel obtained for `src` (before or after `MDATA(dst)`, the kernels differ in
+that) addresses the same, unchanged contents: `dst`'s buffer is exclusively owned
+after `MDATA`, and a duplication never frees or rewrites the old buffer while
+`src` holds it. -/
+def accum (s : State) (dst src : Nat) (sd ss : Shape) (K : List Int → List Int → List Int) : State × Out :=
+  let s1 := mutableHandle s dst
+  match getSlot s1.pool dst, getSlot s1.pool src with
+  | some (.valid _ bd), some (.valid _ bs) =>
+    match deref s1 sd bd, deref s1 ss bs with
+    | some D, some S => ({ s1 with heap := writeBuf s1.heap bd (K D S) }, .ok)
+    | _, _ => (s1, .crash)
+  | _, _ => (s1, .crash)
+
+/-- the front of a backward entry point `f(gy, …, gx)` of Device: both operands
+valid, then the shape precondition `ok sy sx`, then the kernel -/
+def bwOp (s : State) (gy gx : Nat) (ok : Shape → Shape → R Bool)
+    (K : Shape → Shape → List Int → List Int → List Int) : State × Out :=
+  match getSlot s.pool gy, getSlot s.pool gx with
+  | some hy, some hx =>
+    if gy = gx then (s, .alias) else
+    match hy, hx with
+    | .valid sy _, .valid sx _ =>
+      match ok sy sx with
+      | .error .crash => (s, .crash)
+      | .error .error => (s, .err)
+      | .ok false => (s, .err)
+      | .ok true => accum s gx gy sx sy (K sy sx)
+    | _, _ => (s, .err)
+  | _, _ => (s, .noobj)
+
+def sliceBwOk (dim off : Nat) (sy sx : Shape) : R Bool := do
+  let loo ← sy.hasSameLooDims sx dim
+  pure (!(!loo || !sy.hasCompatibleBatch sx || decide (off > sx.get dim) || decide (sy.get dim > sx.get dim - off)))
+
+def sliceBwK (dim off : Nat) (sy sx : Shape) (D S : List Int) : List Int :=
+  if dim ≥ sx.depth then arith (· + ·) sx sy D (some S) else scatter (· + ·) (sliceIdx sy sx dim off) D S
+
+def pickBwOk (dim : Nat) (ids : List Nat) (sy sx : Shape) : R Bool := do
+  let r ← ShapeOps.pick sx ids dim
+  pure (sy.eq r)
+
+def flipBwOk (sy sx : Shape) : R Bool := pure (sy.eq sx)
+
+def transposeBwOk (sy sx : Shape) : R Bool := do
+  let r ← ShapeOps.transpose sx
+  pure (sy.eq r)
+
+/-- `add_bw` / `subtract_bw` (`gb` receives `g`): shape precondition of DEV_BW_AB
+with `a := ga`, `b := gb`, `y := gy` -/
+def abBwOk (sy sa sb : Shape) : R Bool := do
+  let r ← ShapeOps.elementwise sa sb
+  pure (sy.eq r)
+
+/-- `add_bw(…, gy, ga, gb)` / `subtract_bw`: `MDATA(ga)`, `MDATA(gb)`, then one loop
+that updates both; the three objects are distinct, so the final state is that
+of `ga += gy` followed by `gb ±= gy` (same buffers duplicated in the same order). -/
+def abBwOp (g : Int → Int → Int) (s : State) (gy ga gb : Nat) : State × Out :=
+  match getSlot s.pool gy, getSlot s.pool ga, getSlot s.pool gb with
+  | some hy, some ha, some hb =>
+    if gy = ga ∨ gy = gb ∨ ga = gb then (s, .alias) else
+    match hy, ha, hb with
+    | .valid sy _, .valid sa _, .valid sb _ =>
+      match abBwOk sy sa sb with
+      | .error .crash => (s, .crash)
+      | .error .error => (s, .err)
+      | .ok false => (s, .err)
+      | .ok true =>
+        let r1 := accum s ga gy sa sy (fun D S => arith (· + ·) sa sy D (some S))
+        match r1.2 with
+        | .ok => accum r1.1 gb gy sb sy (fun D S => arith g sb sy D (some S))
+        | _ => r1
+    | _, _, _ => (s, .err)
+  | _, _, _ => (s, .noobj)
+
 /-- the body shared by `reset`, `reset_by_vector`, `*=`: `MDATA(x)` and then a
 loop over `shape.size()` elements -/
 def inplace1 (s : State) (h : Nat) (f : Nat → List Int → List Int) : State × Out :=
@@ -200,6 +327,11 @@ def inplace2 (f : Int → Int → Int) (s : State) (h g : Nat) : State × Out :=
 
 /-! ### operations of the protocol -/
 
+/-- functions whose result is only computed and dropped (`probe`) -/
+inductive Probe where
+  | sum0 | add | matmul | bsum | tofloat | argmax0
+deriving Repr, DecidableEq, Inhabited
+
 inductive Op where
   | new (h : Nat) (dims : List Nat) (batch : Nat) (vals : List Int)
   | copy (h g : Nat)
@@ -226,6 +358,23 @@ inductive Op where
   | pdrop (p : Nat)
   | live
   | readall
+  -- the public Device entry points, called directly
+  | diadd (h g : Nat)
+  | disub (h g : Nat)
+  | dimul (h : Nat) (k : Int)
+  | dsliceBw (gy : Nat) (dim off : Nat) (gx : Nat)
+  | dpickBw (gy : Nat) (dim : Nat) (ids : List Nat) (gx : Nat)
+  | dflipBw (gy : Nat) (dim : Nat) (gx : Nat)
+  | dtransposeBw (gy gx : Nat)
+  | daddBw (gy ga gb : Nat)
+  | dsubBw (gy ga gb : Nat)
+  | piaddGrad (p g : Nat)
+  -- primitiv::functions on one operand
+  | fcopy (h g : Nat)
+  | fpositive (h g : Nat)
+  | fconcat1 (h g : Nat) (dim : Nat)
+  | fbconcat1 (h g : Nat)
+  | probe (fn : Probe) (h : Nat)
 deriving Repr, DecidableEq, Inhabited
 
 def vslot (p : Nat) : Nat := 3 * p + 1
@@ -257,6 +406,35 @@ def viewOp (s : State) (h g : Nat) (rule : Shape → R Shape) : State × Out :=
     | .error .crash => (s, .crash)
     | .error .error => (s, .err)
     | .ok rsh => (replace s g (some (.valid rsh b)), .ok)
+
+/-- total helper: `D` cut or zero-padded to `n` elements (the identity when
+`D.length = n`, which is the only case that occurs: see `freshOp`) -/
+def fitTo (n : Nat) (D : List Int) : List Int := D.take n ++ List.replicate (n - D.length) 0
+
+/-- `g = F(h)` where `F` returns a new tensor with the contents of `h` and the
+shape `rule (shape h)` (`copy_tensor`, `concat_fw` / `batch_concat_fw` of a single
+tensor).  The result has `rule sh`.size() elements; for every shape the
+constructor can build this is the element count of `h` (shape algebra, C09), so
+`fitTo` is the identity; it only makes the definition total. -/
+def freshOp (s : State) (h g : Nat) (rule : Shape → R Shape) : State × Out :=
+  match getSlot s.pool h with
+  | none => (s, .noobj)
+  | some .invalid => (s, .err)
+  | some (.valid sh b) =>
+    match rule sh with
+    | .error .crash => (s, .crash)
+    | .error .error => (s, .err)
+    | .ok rsh =>
+      match deref s sh b with
+      | some D => (allocInto s g rsh (fitTo rsh.size (D.take sh.size)), .ok)
+      | none => (s, .crash)
+
+/-- does `fn(h)` succeed on a valid tensor of shape `sh`? (the result is dropped) -/
+def probeOk (fn : Probe) (sh : Shape) : Bool :=
+  match fn with
+  | .matmul => match ShapeOps.matmul sh sh with | .ok _ => true | _ => false
+  | .tofloat => sh.size == 1
+  | _ => true
 
 def liveCount (s : State) : Nat := (s.heap.filter Option.isSome).length
 
@@ -361,6 +539,38 @@ def step (s : State) : Op → State × Out
   | .pdrop p =>
     let s1 := replace (replace s (vslot p) none) (gslot p) none
     ({ s1 with pvalid := setFlag s1.pvalid p false }, .ok)
+  | .diadd h g => inplace2 (· + ·) s h g      -- Tensor::inplace_add is exactly this call
+  | .disub h g => inplace2 (· - ·) s h g
+  | .dimul h k =>
+    match getSlot s.pool h with
+    | none => (s, .noobj)
+    | some .invalid => (s, .err)
+    | some (.valid _ _) => inplace1 s h (fun n D => scale n k D)
+  | .dsliceBw gy dim off gx => bwOp s gy gx (sliceBwOk dim off) (sliceBwK dim off)
+  | .dpickBw gy dim ids gx =>
+    bwOp s gy gx (pickBwOk dim ids) (fun sy sx D S => scatter (· + ·) (pickIdx sy sx dim ids) D S)
+  | .dflipBw gy dim gx => bwOp s gy gx flipBwOk (fun _ sx D S => scatter (· + ·) (flipIdx sx dim) D S)
+  | .dtransposeBw gy gx =>
+    bwOp s gy gx transposeBwOk (fun sy sx D S => arith (· + ·) sx sx D (some (transposeData sy S)))
+  | .daddBw gy ga gb => abBwOp (· + ·) s gy ga gb
+  | .dsubBw gy ga gb => abBwOp (· - ·) s gy ga gb
+  | .piaddGrad p g =>
+    match getSlot s.pool g with
+    | none => (s, .noobj)
+    | some _ => if s.pvalid.getD p false then inplace2 (· + ·) s (gslot p) g else (s, .err)
+  | .fcopy h g => freshOp s h g (fun sh => pure sh)
+  | .fpositive h g =>                           -- `return x;` after the validity check
+    match getSlot s.pool h with
+    | none => (s, .noobj)
+    | some .invalid => (s, .err)
+    | some (.valid sh b) => (replace s g (some (.valid sh b)), .ok)
+  | .fconcat1 h g dim => freshOp s h g (fun sh => ShapeOps.concat [sh] dim)
+  | .fbconcat1 h g => freshOp s h g (fun sh => ShapeOps.batchConcat [sh])
+  | .probe fn h =>
+    match getSlot s.pool h with
+    | none => (s, .noobj)
+    | some .invalid => (s, .err)
+    | some (.valid sh _) => if probeOk fn sh then (s, .ok) else (s, .err)
   | .live => (s, .nat (liveCount s))
   | .readall =>
     match readAllFrom s 0 s.pool with
